@@ -160,9 +160,13 @@ func genStream(rnd *hx.Rand, maxLines, maxLen int) string {
 			l = 0
 		}
 		for j := 0; j < l; j++ {
-			b.WriteByte("abcdefgh \t:%é\r"[rnd.Intn(14)])
+			const alphabet = "abcdefgh \t:%é\r" // é is two bytes: the carriage return is byte 14
+			b.WriteByte(alphabet[rnd.Intn(len(alphabet))])
 		}
 		if i < n-1 || rnd.Chance(70) {
+			if rnd.Chance(10) {
+				b.WriteByte('\r') // CRLF line ending: the carriage return belongs to the line
+			}
 			b.WriteByte('\n')
 		}
 	}
